@@ -145,7 +145,7 @@ impl FileView {
 //@extract method bigtools/src/utils/file/file_view.rs new "^impl FileView$"
 //@sub /\bFile\b/ => VFile
 //@sub /io::Result<(\w+)>/ => Result<\1, IoError>
-//@sub /io::SeekFrom::/ => SeekFrom:: min=2
+//@sub /io::SeekFrom::/ => SeekFrom:: min=0
 //@ret r
 //@sig
     requires
@@ -165,7 +165,7 @@ impl FileView {
 impl FileView {
 //@extract method bigtools/src/utils/file/file_view.rs read "impl Read for FileView"
 //@sub /io::Result<(\w+)>/ => Result<\1, IoError>
-//@sub /io::SeekFrom::/ => SeekFrom:: min=1
+//@sub /io::SeekFrom::/ => SeekFrom:: min=0
 //@ret r
 //@sig
     requires
@@ -211,7 +211,7 @@ impl FileView {
 //@extract method bigtools/src/utils/file/file_view.rs seek "impl Seek for FileView"
 //@rule R6 min=3
 //@sub /io::Result<(\w+)>/ => Result<\1, IoError>
-//@sub /io::SeekFrom/ => SeekFrom min=1
+//@sub /io::SeekFrom/ => SeekFrom min=0
 //@sub /self\.start \+ start\b/ => pos_add_u64(self.start, start) min=0
 //@sub /\(current as i64\) \+ offset\b/ => pos_add_i64(current as i64, offset) min=0
 //@ret r
